@@ -6,18 +6,20 @@ import c01
 PID = "C13"
 LEVEL = "proof"
 NEED_RELEASE = True
-COQ_TARGETS = ["Props/C13.vo", "Props/C13_ks.vo"]
-PROPS_FILES = ["C13", "C13_ks"]
-THEOREMS = []
+COQ_TARGETS = ["Props/C13.vo", "Props/C13_ks.vo", "Props/C13_fp.vo"]
+PROPS_FILES = ["C13", "C13_ks", "C13_fp"]
+THEOREMS = ["C13_fingerprints", ]
 FAMS = ["cauchy", "pareto", "weibull", "gumbel", "frechet", "triangular"]
 TRUSTED_BASE = [
     "Coq 8.16.1 kernel; C01's theorems for the six families (exactly one word consumed; Q(u) <= x <-> u <= F(x)); Proofs/KS.v "
     "(finite formula for the Kolmogorov distance of an empirical measure and the bound from pointwise accuracy)",
     "exhaustive enumeration on the real crate (harness sweep, release build): all 2^24 first-word high-bit patterns per (family, "
     "parameter point): finite, inside the support, monotone in the draw, exactly one word consumed",
-    "pointwise accuracy |s_k - Q(u_k)| against the Coq model enclosure at stratified draws (dense at both ends) via coqc; the bound on "
-    "the Kolmogorov distance obtained this way is sound but coarser than the 2^-24-level constant of the property (gap between checked "
-    "draws enters the bound): reported as such",
+    "the property's inequality KS <= 2^-24(1.5 + 8 sup|x f|) is decided on the real code by the harness command `ks`: all 2^24 outputs sorted, "
+    "the step formula proved in Proofs/KS.v, the documented CDF/density evaluated in binary64 (rounding error ~1e-16, five orders below the "
+    "bound; not interval-rigorous: stated as such)",
+    "pointwise accuracy |s_k - Q(u_k)| against the Coq model enclosure at stratified draws (dense at both ends) via coqc ties the outputs to the "
+    "proved quantile transform",
 ]
 ASSUMPTIONS = ["libm within the per-operation budgets of Base/Expr.v", "known finding F4/F11: the draw 1.0 gives an infinite Frechet/Gumbel sample"]
 
@@ -73,6 +75,21 @@ def correspond(ctx):
             cls = fam + "-draw-one" if (fam in ("frechet", "gumbel") and int(f["nonfinite"]) == 1 and k == "ffffff") else "sweep-nonfinite"
             oracle_failures.append({"property": PID, "class": cls, "family": fam, "harness_line": line,
                                     "what": "%s<f32>%s: %s of the 2^24 draws give a non-finite sample (first: %s)" % (fam, list(vals), f["nonfinite"], f["first"])})
+    # 1b. the property's inequality itself, decided numerically on the real code: exact Kolmogorov distance of the induced law
+    #     (all 2^24 outputs, sorted, step formula of Proofs/KS.v) against the documented CDF evaluated in binary64
+    klines = ["ks %s %s %x" % (fam, ",".join(S.f_bits("f32", v) for v in vals), rng.u64()) for fam, vals in pts]
+    kouts = run_harness_guarded_parallel(ctx["binary_release"], klines, batch_timeout=900, line_timeout=300, chunk=1)
+    ks_table = []
+    for (fam, vals), line, o in zip(pts, klines, kouts):
+        if not o.startswith("D="):
+            oracle_failures.append({"property": PID, "class": "ks-error", "family": fam, "harness_line": line, "what": "ks returned " + o}); continue
+        f = dict(x.split("=", 1) for x in o.split(" "))
+        D, B = float(f["D"]), float(f["bound"])
+        ks_table.append({"family": fam, "params": list(vals), "D": D, "bound": B, "M": float(f["M"])})
+        if not (D <= B):
+            oracle_failures.append({"property": PID, "class": "ks-bound", "family": fam, "harness_line": line,
+                                    "what": "%s<f32>%s: Kolmogorov distance of the exact induced law %.3e exceeds 2^-24(1.5+8 sup|xf|) = %.3e (argmax %s)"
+                                            % (fam, list(vals), D, B, f["argmax"])})
     # 2. pointwise accuracy at stratified draws against the model enclosure
     ks = strat_ks(ctx)
     cases = []
@@ -96,7 +113,7 @@ def correspond(ctx):
         "samples": [lines[0], lines2[0][:160], {"sweep_result": outs[0]}],
         "mismatches": mismatches, "oracle_failures": oracle_failures,
         "exhaustive": True,
-        "extra": {"sweeps": sweeps, "pointwise": per, "stratified_draws_per_point": len(ks), "case_stats": stats},
+        "extra": {"sweeps": sweeps, "exact_ks": ks_table, "pointwise": per, "stratified_draws_per_point": len(ks), "case_stats": stats},
     }
 
 
